@@ -204,17 +204,36 @@ pub fn with_events<T>(f: impl FnOnce() -> T) -> (T, Vec<Event>) {
     with_events_limit(u64::MAX, f)
 }
 
+thread_local! {
+    static MODEL_LIMIT: std::cell::Cell<u64> = const { std::cell::Cell::new(u64::MAX) };
+}
+
+/// number of two-valued models the framework under search has according to the oracle (u64::MAX: unknown);
+/// a search observed by `with_events_limit` is stopped as soon as it reaches more than that
+pub fn set_model_limit(limit: u64) {
+    MODEL_LIMIT.with(|m| m.set(limit));
+}
+
 /// like `with_events`, additionally bounds the number of search-loop iterations (LoopTop events):
 /// exceeding it unwinds with `LoopBudgetExceeded` (bounded progress in logical steps)
 pub fn with_events_limit<T>(loop_limit: u64, f: impl FnOnce() -> T) -> (T, Vec<Event>) {
     let log: Rc<RefCell<Vec<Event>>> = Rc::new(RefCell::new(Vec::new()));
     let l2 = log.clone();
     let mut loops = 0u64;
+    let mut reached = 0u64;
+    let model_limit = MODEL_LIMIT.with(|m| m.get());
     let prev = adf_bdd::verif::set_sink(Some(Box::new(move |e: &Event| {
         if let Event::LoopTop { .. } = e {
             loops += 1;
             if loops > loop_limit {
                 std::panic::panic_any(crate::common::LoopBudgetExceeded(loops));
+            }
+        }
+        if let Event::TwoValued { .. } = e {
+            // every two-valued model is reached at most once, so never more often than models exist
+            reached += 1;
+            if reached > model_limit {
+                std::panic::panic_any(crate::common::ModelBudgetExceeded(reached));
             }
         }
         let mut g = l2.borrow_mut();
